@@ -51,10 +51,12 @@ type Context interface {
 
 type Echo struct{}
 
-func (Echo) GET(string, func(Context) error)    {}
-func (Echo) POST(string, func(Context) error)   {}
-func (Echo) PUT(string, func(Context) error)    {}
-func (Echo) DELETE(string, func(Context) error) {}
+type Middleware func(func(Context) error) func(Context) error
+
+func (Echo) GET(string, func(Context) error, ...Middleware)    {}
+func (Echo) POST(string, func(Context) error, ...Middleware)   {}
+func (Echo) PUT(string, func(Context) error, ...Middleware)    {}
+func (Echo) DELETE(string, func(Context) error, ...Middleware) {}
 `
 
 type routeGen struct {
@@ -67,6 +69,7 @@ type routeGen struct {
 	nh     int
 	types  []routeType
 	idType string
+	twinNames []string
 }
 
 type routeType struct {
@@ -98,6 +101,12 @@ func NewRouteProg(idx int, r *rand.Rand, c14 bool) *Program {
 		structs = append(structs, name)
 		g.types = append(g.types, routeType{expr: name, str: pkgPath + "." + name, decl: true})
 	}
+	// the generic declaration lives in another file of the package (a generic declaration in the analysed file is refused by the analysis)
+	p.RawFiles[id+"/generic.go"] = "package main\n\ntype Page[T any] struct {\n\tItems []T\n\tTotal int\n}\n"
+	g.types = append(g.types,
+		routeType{expr: "Page[" + structs[0] + "]", str: pkgPath + ".Page[" + pkgPath + "." + structs[0] + "]", decl: true},
+		routeType{expr: "Page[" + structs[1] + "]", str: pkgPath + ".Page[" + pkgPath + "." + structs[1] + "]", decl: true},
+	)
 	g.types = append(g.types,
 		routeType{expr: "[]int64", str: "[]int64"},
 		routeType{expr: "int", str: "int"},
@@ -168,6 +177,14 @@ func NewRouteProg(idx int, r *rand.Rand, c14 bool) *Program {
 			body := g.handlerBody(&rt, "c", c14, true)
 			fmt.Fprintf(&handlers, "func %s(c echo.Context) error {\n%s}\n\n", name, indent(body, "\t"))
 			handlerExpr = name
+		case form == 4 && g.nh > 0 && !c14 && len(g.twinNames) < g.nh:
+			// a method of ANOTHER controller type carrying the same name as a method of the first one
+			name := fmt.Sprintf("handler%d", len(g.twinNames)+1)
+			g.twinNames = append(g.twinNames, name)
+			rt.Handler, rt.HandlerForm = name, "same-named-method-of-other-type"
+			body := g.handlerBody(&rt, "c", c14, true)
+			fmt.Fprintf(&handlers, "func (oc otherCtrl) %s(c echo.Context) error {\n%s}\n\n", name, indent(body, "\t"))
+			handlerExpr = "oc." + name
 		default:
 			g.nh++
 			name := fmt.Sprintf("handler%d", g.nh)
@@ -175,6 +192,10 @@ func NewRouteProg(idx int, r *rand.Rand, c14 bool) *Program {
 			body := g.handlerBody(&rt, "c", c14, false)
 			fmt.Fprintf(&handlers, "func (ct controller) %s(c echo.Context) error {\n%s}\n\n", name, indent(body, "\t"))
 			handlerExpr = "ct." + name
+		}
+		if g.pr(0.25) {
+			handlerExpr += ", logMiddleware" // registrations with middlewares are registrations too
+			rt.PathForm += "+middleware"
 		}
 		fmt.Fprintf(&reg, "\te.%s(%s, %s)\n", rt.Verb, pathExpr, handlerExpr)
 		if i == nRoutes/2 {
@@ -188,10 +209,10 @@ func NewRouteProg(idx int, r *rand.Rand, c14 bool) *Program {
 	fmt.Fprintf(&src, "\t%q\n\t%q\n)\n\n", pkgPath+"/echo", pkgPath+"/inner")
 	src.WriteString("const pkgRoute = \"/const_url_from_package/\"\n\n")
 	src.WriteString(decls.String())
-	src.WriteString("type controller struct{}\n\n")
+	src.WriteString("type controller struct{}\n\ntype otherCtrl struct{}\n\nfunc logMiddleware(next func(echo.Context) error) func(echo.Context) error { return next }\n\n")
 	src.WriteString("func QueryParamInt[T ~int64](echo.Context, string) (T, error) { return 0, nil }\nfunc (controller) QueryParamInt64(echo.Context, string) int64 { return 0 }\nfunc (controller) QueryParamBool(echo.Context, string) bool   { return false }\nfunc FormValueJSON(echo.Context, string, any) error           { return nil }\n\n")
 	src.WriteString(handlers.String())
-	src.WriteString("func routes(e *echo.Echo, ct *controller, ct2 inner.Controller) {\n\tconst localRoute = \"const_local_url\"\n")
+	src.WriteString("func routes(e *echo.Echo, ct *controller, ct2 inner.Controller, oc otherCtrl) {\n\tconst localRoute = \"const_local_url\"\n")
 	src.WriteString(reg.String())
 	src.WriteString("}\n\nfunc main() { fmt.Println(\"routes\") }\n")
 
